@@ -251,6 +251,19 @@ def judge(cfg, recs, nodist, mon, via="fake"):
                       yielded=len(s["list"]))
             mon.check(s["epoch_after"] == s["e"] + 1, "epoch-attr", rank=r, observed=s["epoch_after"],
                       expected=s["e"] + 1)
+        for s in rec.get("peeks", []):
+            want = order_of(s["e"])
+            if want is not None:
+                mon.check(s["list"] == want, "peek-then-set-epoch", rank=r, set_epoch=s["e"], observed=s["list"],
+                          expected=want)
+            mon.check(s["epoch_after"] == s["e"] + 1, "epoch-attr", rank=r, observed=s["epoch_after"],
+                      expected=s["e"] + 1, after="peek, then set")
+        if "serialised" in rec:
+            for which in ("live", "copies"):
+                for k, x in enumerate(rec["serialised"][which]):
+                    mon.check(x["e"] == k and x["list"] == lists[k] and x["len"] == len(x["list"]),
+                              "serialised-between-epochs", rank=r, which=which, step=k, epoch_attr=x["e"],
+                              len=x["len"], observed=x["list"], expected=lists[k])
         if "partial" in rec:
             # an abandoned iterator: whatever the `epoch` state then names as next is what comes next
             p = rec["partial"]
